@@ -87,6 +87,15 @@ const (
 
 type methodSet map[string]*ssa.Function
 
+// alwaysSummarize lists small pure stdlib predicates whose internal
+// short-circuit paths are merged into one term wherever they are called.
+var alwaysSummarize = map[string]bool{
+	"encoding/asn1.isPrintable": true,
+	"unicode.IsSpace":           true,
+	"unicode.IsDigit":           true,
+	"unicode.IsLetter":          false,
+}
+
 type fnInfo struct {
 	name      string
 	ext       externalFn
@@ -548,7 +557,7 @@ func callSSA(i *interpreter, caller *frame, callpos token.Pos, fn *ssa.Function,
 		info := i.fnCache[fn]
 		if info == nil {
 			name := fn.String()
-			info = &fnInfo{name: name, ext: externals[name], summarize: i.sh.Summarize[name]}
+			info = &fnInfo{name: name, ext: externals[name], summarize: i.sh.Summarize[name] || alwaysSummarize[name]}
 			i.fnCache[fn] = info
 		}
 		// package initialisers depend on per-path state, so they are not cached
